@@ -464,6 +464,9 @@ func init() {
 				if sp.Refresh == "manual" && tier != "thorough" {
 					bound = 0
 				}
+				if tier == "thorough" && !sp.Pty {
+					bound = 2
+				}
 				strats := []int{mcrt.StratFIFO}
 				if !sp.Pty || tier == "thorough" {
 					strats = allStrats
@@ -485,6 +488,14 @@ func init() {
 					bound = 0
 				}
 				items = append(items, specItems("C18", sp, bound, []int{mcrt.StratFIFO, mcrt.StratNewest}, c04Tags(sp), c04Oracle)...)
+			}
+			if tier == "thorough" {
+				// the two-bar programs of the quick tier once more, one deviation deeper (recorder output)
+				for _, sp := range c18Programs("quick") {
+					if !sp.Pty && !strings.Contains(sp.Name, "prio-window-auto") {
+						items = append(items, specItems("C18", sp, 2, []int{mcrt.StratFIFO, mcrt.StratNewest}, c04Tags(sp), c04Oracle)...)
+					}
+				}
 			}
 			return items
 		},
